@@ -211,6 +211,8 @@ func (f *c08Flow) use(v ssa.Value, in ssa.Instruction) {
 				f.taint(al) // loads of the local are tainted through UnOp(MUL)
 			} else if ia, ok := x.Addr.(*ssa.IndexAddr); ok && c08IsAlloc(ia.X) {
 				f.taint(ia.X) // element of a local array: the packing of a variadic call
+			} else if c08IsParamTempAddr(x.Addr) {
+				f.sinks++ // the body of appendToParam written out: st.paramTemp = append(st.paramTemp, v...)
 			} else {
 				f.problem(x.Pos(), false, "store", "the value is stored through %s — not a recognised way to the parameter", x.Addr.String())
 			}
@@ -314,6 +316,20 @@ func (f *c08Flow) call(v ssa.Value, in ssa.Instruction, cc *ssa.CallCommon) {
 			f.problem(pos, false, "call:"+name, "the value is passed to %s — not one of the recognised steps (type assertion, string/[]rune conversion, element access, ConvertGoType(…, String), appendToParam)", name)
 		}
 	}
+}
+
+// c08IsParamTempAddr: the address of (expressions.StatementT).paramTemp — the slice appendToParam appends to.
+func c08IsParamTempAddr(a ssa.Value) bool {
+	fa, ok := a.(*ssa.FieldAddr)
+	if !ok {
+		return false
+	}
+	pt, ok := fa.X.Type().Underlying().(*types.Pointer)
+	if !ok || namedPath(pt.Elem()) != c10StatementT {
+		return false
+	}
+	st, ok := pt.Elem().Underlying().(*types.Struct)
+	return ok && fa.Field < st.NumFields() && st.Field(fa.Field).Name() == "paramTemp"
 }
 
 func (c *Ctx) c08NewFlow() *c08Flow {
